@@ -313,6 +313,16 @@ func (s *Sim) Adopt(name string) {
 	s.unlock()
 }
 
+// WithLock runs f under the simulator's own lock (for harness state that the
+// hook filter reads).
+//
+//go:norace
+func (s *Sim) WithLock(f func()) {
+	s.lock()
+	f()
+	s.unlock()
+}
+
 // Op is the scheduling point between two operations of a harness task.
 func (s *Sim) Op() { s.Yield("op", "") }
 
@@ -367,7 +377,7 @@ func (s *Sim) Yield(pt, detail string) {
 	}
 	harness := pt == "start" || pt == "op" || strings.HasPrefix(pt, "h.")
 	if !harness && (s.HookFilter == nil || !s.HookFilter(pt, detail)) {
-		if !RaceEnabled {
+		if !RaceEnabled && !strings.HasPrefix(pt, "mx.") {
 			s.stats["pass:"+pt]++
 		}
 		s.unlock()
